@@ -12,7 +12,7 @@ RULE = ('each content is built by every route (bin/hex text, token string incl. 
 ASSUMPTIONS = ['a file is its bytes (mmap itself is not modelled)', 'repr of a file-backed object shows filename= by design and is excluded; str is included']
 FILE_ROUTES = ['file_whole', 'file_len', 'file_off', 'file_off_len', 'file_unaligned', 'handle', 'handle_off_len', 'file_shorter_nonmult',
                'file_exact_len', 'handle_exact_len']
-ALL_ROUTES = ROUTES + FILE_ROUTES + ['hex', 'cachehit', 'array', 'memoryview', 'fromstring', 'bitarray_little', 'bitarray_little_window']
+ALL_ROUTES = ROUTES + FILE_ROUTES + ['hex', 'cachehit', 'array', 'memoryview', 'fromstring', 'bitarray_little', 'bitarray_little_window', 'after_setter_hex', 'after_setter_bin', 'after_setter_bits', 'after_setter_bytes']
 
 def gen_cases(rng, tier):
     N = 40 if tier == 'quick' else 500
@@ -51,6 +51,15 @@ def build_route(C, bits, route, tmpfiles):
     if route in ROUTES: return build(C.__name__, bits, route)
     if route == 'hex':
         return C(hex=format(int(bits, 2), f'0{n // 4}x')) if n % 4 == 0 and n else C(bin=bits)
+    if route.startswith('after_setter_'):
+        # the same text / value was first given to another, mutable object through its property and that object was edited in place
+        k = route[len('after_setter_'):]
+        if not n or (k == 'hex' and n % 4) or (k == 'bytes' and n % 8): return C(bin=bits)
+        val = {'hex': lambda: format(int(bits, 2), f'0{n // 4}x'), 'bin': lambda: bits, 'bits': lambda: '0b' + bits, 'bytes': lambda: int(bits, 2).to_bytes(n // 8, 'big')}[k]()
+        for M in (bitstring.BitArray, bitstring.BitStream):
+            a = M(); setattr(a, k, val); a.invert(); a.append('0b1'); del a[0]
+            a = M(); setattr(a, k, val); a.set(1); a.reverse()
+        return C(**{k: val}) if k != 'bits' else C(val)
     if route == 'cachehit':
         bitstring.Bits('0b' + bits) if n else None
         return C('0b' + bits) if n else C()
